@@ -70,6 +70,27 @@ def FibTree.set (f : FibTree) (n : Name) : FibTree :=
 def FibTree.uns (f : FibTree) (n : Name) : FibTree :=
   if f.nodeAt n then ({ f with st := aset f.st n false } : FibTree).pruneAt n else f
 
+inductive FibOp where
+  | ins (n : Name) (face : Nat)
+  | rem (n : Name) (face : Nat)
+  | clr (n : Name)
+  | set (n : Name)
+  | uns (n : Name)
+
+def FibTree.step (f : FibTree) : FibOp → FibTree
+  | .ins n face => f.ins n face
+  | .rem n face => f.rem n face
+  | .clr n => f.clr n
+  | .set n => f.set n
+  | .uns n => f.uns n
+
+def FibTree.run (f : FibTree) : List FibOp → FibTree
+  | [] => f
+  | op :: ops => FibTree.run (f.step op) ops
+
+/-- names with a next hop or a strategy -/
+def FibTree.liveList (f : FibTree) : List Name := ((f.nh.map (·.1)) ++ (f.st.map (·.1))).filter f.live
+
 /-! ### hash-table FIB -/
 
 structure FibHash where
@@ -143,6 +164,17 @@ def FibHash.uns (f : FibHash) (n : Name) : FibHash :=
     ({ f with real := aset f.real n (e.1, false) } : FibHash).pruneTables n
   else f
 
+def FibHash.step (f : FibHash) : FibOp → FibHash
+  | .ins n face => f.ins n face
+  | .rem n face => f.rem n face
+  | .clr n => f.clr n
+  | .set n => f.set n
+  | .uns n => f.uns n
+
+def FibHash.run (f : FibHash) : List FibOp → FibHash
+  | [] => f
+  | op :: ops => FibHash.run (f.step op) ops
+
 /-! ### RIB -/
 
 structure Rib where
@@ -175,5 +207,22 @@ def Rib.cleanUp (r : Rib) (face : Nat) : Rib :=
     if memb n ([] :: r.nodes) then
       ({ r with routes := aset r.routes n (removeFirst (fun x => x.1 == face) (aget [] r.routes n)) } : Rib).pruneAt n
     else r) r
+
+inductive RibOp where
+  | add (n : Name) (face origin : Nat)
+  | remove (n : Name) (face origin : Nat)
+  | cleanUp (face : Nat)
+
+def Rib.step (r : Rib) : RibOp → Rib
+  | .add n f o => r.add n f o
+  | .remove n f o => r.remove n f o
+  | .cleanUp f => r.cleanUp f
+
+def Rib.run (r : Rib) : List RibOp → Rib
+  | [] => r
+  | op :: ops => Rib.run (r.step op) ops
+
+/-- names with at least one route -/
+def Rib.liveList (r : Rib) : List Name := (r.routes.map (·.1)).filter r.live
 
 end Ndn.C08
